@@ -17,10 +17,15 @@ class Dev:
         return False
 
 
-def make_generator(name, prog, acl_text, vendor):
+def make_generator(name, prog, acl_text, vendor, declines=None):
+    """declines: None, "supports" (supports_device() answers no) or "raise" (run raises NotSupportedDevice after its first yield)"""
     from annet.generators import PartialGenerator
 
     def run(self, device):
+        if declines == "raise":
+            from annet.generators.exceptions import NotSupportedDevice
+            yield "zz-before-declining 1"
+            raise NotSupportedDevice("not for this box")
         frames = []
         k = 0
         for o in prog:
@@ -63,7 +68,10 @@ def make_generator(name, prog, acl_text, vendor):
 
     def acl(self, device):
         return acl_text
-    cls = type(name, (PartialGenerator,), {"run_" + vendor: run, "acl_" + vendor: acl, "TAGS": []})
+    attrs = {"run_" + vendor: run, "acl_" + vendor: acl, "TAGS": []}
+    if declines == "supports":
+        attrs["supports_device"] = lambda self, device: False
+    cls = type(name, (PartialGenerator,), attrs)
     return cls(storage=STORAGE)
 
 
